@@ -340,6 +340,8 @@ def run(prog, chk):
     r5 = chk.rule("R5-monotone-accumulators", ACC_DESC, floor=3)
     accumulator_rule(prog, r5)
     histogram_rule(prog, chk)
+    # the scanner's class tables are what the analyser's character sets are compared with (R1): they must themselves be right
+    c01.class_table_rule(prog, chk, rid="R10", primary=False)
     terminator_count_rule(prog, chk)
     r7 = chk.rule("R7-unquoting-refuses-the-empty-string", "cif_value_set_quoted(NOT_QUOTED): the store that marks a character value "
                   "unquoted is reached only where the first character of its text was found non-zero (an empty string has no "
